@@ -49,10 +49,17 @@ def backing_field(index, cls_key, prop):
     t = index.lookup_method(cls_key, prop)
     if not t:
         return None
-    body = U.body_without_docstring(t[2])
+    body = U.core_body(t[2])
     if len(body) == 1 and isinstance(body[0], ast.Return):
         c = U.chain(body[0].value)
         if c and c[0] == 'self' and len(c) == 2:
+            return c[1]
+    # a getter with further statements (logging, checks) whose every return hands out the same field, which it never stores
+    rets = [r for r in U.walk_no_nested(t[2]) if isinstance(r, ast.Return)]
+    chains = {U.chain(r.value) if r.value is not None else None for r in rets}
+    if rets and len(chains) == 1:
+        c = next(iter(chains))
+        if c and c[0] == 'self' and len(c) == 2 and not any(isinstance(n, ast.Attribute) and isinstance(n.ctx, ast.Store) and n.attr == c[1] for n in ast.walk(t[2])):
             return c[1]
     return None
 
